@@ -70,6 +70,7 @@ func runC18(p *core.Prog, r *core.Result) {
 		"R18.8 target output goes to the observer of the run: if Project.events can be replaced after load (run(callback=...)), every line writer is bound to the project and reads the current Events at delivery time instead of the one captured at load",
 		"R18.11 an Events implementation that buffers a target's lines per label (to show them with a failure) starts every visit with an empty buffer: the record its TargetEvaluating handler sets up is newly allocated, or its line buffer is reset there - otherwise a target visited twice by one renderer (watch mode, the REPL) is shown with the output of its earlier visits again",
 		"R18.12 an Events implementation does not die on a well-formed event: in the Events methods of the module (and the same-package functions they call) no value obtained from a fallible call whose error result is discarded is then used in an unchecked type assertion - the JSON renderer encodes the environment diff with json.encode, which fails for ordinary values (a dict with integer keys, a non-finite float), and a Go panic on a runner goroutine ends the stream without 'evaluating', terminal events or run-done",
+		"R18.13 the lone failed event for a missing dependency: Evaluate recognises a missing dependency by the dynamic type of the error it is handed (a type switch, not errors.As), so every function on LoadTarget's path that produces an error of such a type returns it as it is on every path - a wrapper around it (fmt.Errorf with %w, to add a suggestion) is no longer recognised and the dependent emits no event at all",
 		"R18.6 the partial-line buffer never retains (a slice of) the caller's chunk: it only grows by copying appends",
 		"R18.5 lineWriter.Write conserves bytes: the unconsumed chunk is cut only at its first newline (c[:nl], c[nl+1:]); the rest becomes the next cursor; per newline exactly one line is delivered - c[:nl] alone only where the buffer is known empty, otherwise the buffer after c[:nl] was appended; without a newline the whole rest is buffered",
 		"R18.4 whenever a lineWriter method hands its buffered partial line to Events.Print it resets the buffer before returning (no byte is delivered twice)",
@@ -606,6 +607,9 @@ func runC18(p *core.Prog, r *core.Result) {
 
 	// ---- R18.8 output is delivered to the observer of the run
 	checkOutputSink(p, r)
+
+	// ---- R18.13 the error of a missing dependency arrives in the form Evaluate tests for
+	checkClassifiedErrorsUnwrapped(p, r, "R18.13")
 
 	// ---- R18.12 an observer does not die on a well-formed event
 	checkObserversDoNotPanic(p, r, "R18.12")
@@ -1222,6 +1226,81 @@ func eventsMethods(p *core.Prog) map[string]bool {
 		}
 	}
 	return out
+}
+
+// checkClassifiedErrorsUnwrapped implements R18.13.
+func checkClassifiedErrorsUnwrapped(p *core.Prog, r *core.Result, rule string) {
+	ev := need(p, r, rule, "", "runTarget", "Evaluate")
+	lt := need(p, r, rule, "", "Project", "LoadTarget")
+	if ev == nil || lt == nil {
+		return
+	}
+	// the error types Evaluate (and the same-package helpers it calls) tells apart by type
+	tested := map[string]types.Type{}
+	for f := range staticClosure(p, ev) {
+		if f.Pkg != ev.Pkg {
+			continue
+		}
+		core.Instrs(f, func(in ssa.Instruction) {
+			ta, ok := in.(*ssa.TypeAssert)
+			if !ok {
+				return
+			}
+			n, ok := ta.AssertedType.(*types.Named)
+			if !ok || n.Obj().Pkg() == nil || n.Obj().Pkg().Path() != pkgRoot || !types.Implements(n, errorIface()) {
+				return
+			}
+			if !types.Identical(ta.X.Type(), types.Universe.Lookup("error").Type()) {
+				return
+			}
+			tested[n.Obj().Name()] = n
+		})
+	}
+	var names []string
+	for n := range tested {
+		names = append(names, n)
+	}
+	sort.Strings(names)
+	r.Floor(rule, len(names), 1, "error types of package dawn that Evaluate tells apart by dynamic type")
+	nProd := 0
+	for _, name := range names {
+		T := tested[name]
+		var fns []*ssa.Function
+		for f := range staticClosure(p, lt) {
+			if f.Pkg == lt.Pkg {
+				fns = append(fns, f)
+			}
+		}
+		sort.Slice(fns, func(i, j int) bool { return fns[i].String() < fns[j].String() })
+		for _, f := range fns {
+			produces := false
+			core.Instrs(f, func(in ssa.Instruction) {
+				if mi, ok := in.(*ssa.MakeInterface); ok && types.Identical(mi.X.Type(), T) {
+					produces = true
+				}
+			})
+			if !produces {
+				continue
+			}
+			k := 0
+			for _, ret := range core.ReturnsOf(f) {
+				vals := core.RetVals(ret)
+				if len(vals) == 0 {
+					continue
+				}
+				ev := vals[len(vals)-1]
+				if core.IsNilConst(ev) || !types.Identical(ev.Type(), types.Universe.Lookup("error").Type()) {
+					continue
+				}
+				nProd++
+				k++
+				mi, direct := ev.(*ssa.MakeInterface)
+				okDirect := direct && types.Identical(mi.X.Type(), T)
+				r.Check(okDirect, rule, fmt.Sprintf("%s#returns-%s-%d", fname(f), name, k), p.InstrPos(ret), "the error is returned as a "+name+" value", "on this path the function that produces "+name+" errors returns something else (a wrapper, e.g. fmt.Errorf with %w): Evaluate's type switch on the dependency's error no longer recognises a missing dependency, so its dependent emits no event at all and only run-done reports the failure")
+			}
+		}
+	}
+	r.Floor(rule, nProd, 1, "error returns of the producers of those types on LoadTarget's path")
 }
 
 // checkObserversDoNotPanic implements R18.12 (a contradiction rule: the error is believed impossible and discarded, then the
